@@ -79,7 +79,7 @@ def dim_count_ok(n_term, nd, loops3, ranks):
         if not outk or seq_len(lout.init[outk[0]]) is not nd:
             continue
         heads = [l_.lh[x] for l_ in (lout, lmid, linner) for x in l_.lh if keyrepr(x) == keyrepr(k)]
-        if any(n_c is T.app('min', *sorted([nd, T.app('len', h_)], key=T.key)) for h_ in heads):
+        if T.is_app(n_c, 'min') and any(set(n_c[2]) == {nd, T.app('len', h_)} for h_ in heads):
             return True
     return False
 
@@ -292,7 +292,9 @@ def tensor_parquet(ctx):
         il = inner[0]
         okloops = t.n is s0 and m.n is s1 and ev.t(t.elem) is oi and ev.t(m.elem) is ci
         ctx.check(pfx + '.values.loops', A, 'loops', okloops, expected='observation loop over axis 0 (s0), chain loop over axis 1 (s1)', found='n=%s / %s' % (show(t.n), show(m.n)), sp=t.sp, why='documented axis order of the tensor variant')
-        slices = T.atoms(il.n, lambda x: T.is_app(x, 'index') and x[2][0] is X and T.is_app(x[2][1], 'range'))
+        # the row slice of the flat buffer: the range the dim loop reads its values from
+        is_slice = lambda x: T.is_app(x, 'index') and x[2][0] is X and T.is_app(x[2][1], 'range')
+        slices = list({x for t_ in [il.n] + [v for v in il.next.values() if isinstance(v, T.Tm)] for x in T.atoms(t_, is_slice)})
         if len(slices) == 1:
             sl = slices[0]
             offsets(ctx, pfx, A, X, oi, ci, s1, s2, sl, il.sp)
